@@ -192,9 +192,15 @@ def cloud_log_l(points):
 def draw_bound_spec(rng, classes=None, d_max=8, clouds=None, networks=None):
     cls = rng.choice(classes or CLASSES)
     d = rng.choice([x for x in [2, 2, 3, 3, 4, 5, 6, 8] if x <= d_max])
+    if cls in ('UnitCube', 'Ellipsoid', 'Mixture', 'Union') and \
+            rng.random() < 0.06:
+        d = 1
     if cls in ('NeuralBound', 'NautilusBound'):
         d = min(d, 5)
     cloud = draw_cloud(rng, d, clouds)
+    if d == 1 and cloud['kind'] in ('curved', 'elongated', 'triangles',
+                                    'many'):
+        cloud['kind'] = rng.choice(['blob', 'two', 'three', 'face', 'fill'])
     if cls != 'Union' and cloud['kind'] == 'many':
         # a dozen clusters make NautilusBound.compute spend minutes in the
         # pairwise ellipsoid-overlap test; unions get this cloud, the others
